@@ -5,6 +5,7 @@ import (
 	"flag"
 	"fmt"
 	"os"
+	"path/filepath"
 	"reflect"
 	"regexp"
 	"regexp/syntax"
@@ -499,6 +500,25 @@ func loadDocumented() {
 	}
 }
 
+// c17Decoys puts the process into a working directory that holds, for every advertised platform name, a file of that very
+// name with another definition in it (the working directory of a program is not the library's business: an advertised name
+// means the embedded definition).
+func c17Decoys() error {
+	dir, err := os.MkdirTemp(os.Getenv("VERIF_TMP"), "c17cwd-")
+	if err != nil {
+		return err
+	}
+
+	for _, n := range platform.GetPlatformNames() {
+		decoy := "---\nplatform-type: 'decoy'\ndefault:\n  driver-type: 'generic'\n  failed-when-contains:\n    - 'decoy'\n"
+		if err = os.WriteFile(filepath.Join(dir, n), []byte(decoy), 0o600); err != nil {
+			return err
+		}
+	}
+
+	return os.Chdir(dir)
+}
+
 func c17export(args []string) error {
 	loadDocumented()
 
@@ -506,6 +526,14 @@ func c17export(args []string) error {
 	out := fs.String("out", "platforms.json", "output")
 
 	if err := fs.Parse(args); err != nil {
+		return err
+	}
+
+	if abs, aerr := filepath.Abs(*out); aerr == nil {
+		*out = abs
+	}
+
+	if err := c17Decoys(); err != nil {
 		return err
 	}
 
@@ -548,13 +576,20 @@ type c17Scn struct {
 	Name    string      `json:"name"`
 	Variant string      `json:"variant"`
 	Pairs   [][2]string `json:"pairs"` // (start, target) level names, visited in order, start reached through the driver
-	idx     int
+	// Grants: the device has no secret configured: an escalate command that the definition marks as authenticated is granted
+	// without a question (the user has a secondary secret configured all the same; it is never asked for)
+	Grants bool `json:"grants,omitempty"`
+	idx    int
 }
 
 func c17Run(s *c17Scn) verdict {
 	id := s.Name
 	if s.Variant != "" {
 		id += "/" + s.Variant
+	}
+
+	if s.Grants {
+		id += "+device-grants-without-asking"
 	}
 
 	v := verdict{ID: s.idx, Variant: id, OK: true, Nontrivial: len(s.Pairs) > 0}
@@ -601,7 +636,7 @@ func c17Run(s *c17Scn) verdict {
 		for _, l := range d.Levels {
 			l := l
 			if l.Previous == c.Mode && l.Escalate != "" && line == l.Escalate {
-				if l.Auth {
+				if l.Auth && !s.Grants {
 					c.Pending = &simdev.Ask{Prompt: l.AskPrompt, OnAnswer: func(c *simdev.CLI, a string) string {
 						if a == secret {
 							c.Mode = l.Name
@@ -787,6 +822,11 @@ func c17Run(s *c17Scn) verdict {
 
 func c17(_ []string) error {
 	loadDocumented()
+
+	if err := c17Decoys(); err != nil {
+		return err
+	}
+
 	var scns []*c17Scn
 
 	if err := readScenarios(func(raw json.RawMessage) error {
